@@ -24,9 +24,10 @@ Open Scope N_scope.
 Record sstate := mkS {
   s_cache : list (cid * meta);            (* XmlContext.cache *)
   s_xsi : list (str * list cid);          (* XmlContext.xsi_cache *)
-  s_seen : N }.                           (* XmlContext.sys_modules *)
+  s_seen : N;                             (* XmlContext.sys_modules *)
+  s_unsup : list cid }.                   (* XmlContext.unsupported *)
 
-Definition s0 : sstate := mkS [] [] 0.
+Definition s0 : sstate := mkS [] [] 0 [].
 
 Inductive act :=
 | ACacheHas (c : cid)                (* build:           if clazz not in self.cache: *)
@@ -37,10 +38,18 @@ Inductive act :=
 | ASeenWrite                         (* build_xsi_cache: self.sys_modules = len(sys.modules) *)
 | AXsiHas (q : str)                  (* find_types:      if qname in self.xsi_cache: *)
 | AXsiRef (q : str)                  (* find_types:      return self.xsi_cache[qname] *)
-| AStoreFail (c : cid).              (* build: the same store line, builder.build raised *)
+| AStoreFail (c : cid)               (* build: the same store line, builder.build raised *)
+| ASeenReadAll                       (* find_type_by_fields: the currency check of its build_xsi_cache, when the
+                                        index is current; `self.xsi_cache.values()` is taken before the thread
+                                        reaches another marked line *)
+| ASeenWriteAll                      (* the same with the last line of a rebuild *)
+| AUnsupHas (c : cid)                (* local_names_match: if clazz in self.unsupported: *)
+| AUnsupAdd (c : cid)                (* local_names_match: self.unsupported.add(clazz) *)
+| ACacheGetDiff (c : cid).           (* find_type_by_fields.get_field_diff: meta = self.cache[clazz] *)
 
 Inductive aans :=
-| RBool (b : bool) | RMeta (o : option meta) | RNum (n : N) | RClss (l : list cid) | RUnit.
+| RBool (b : bool) | RMeta (o : option meta) | RNum (n : N) | RClss (l : list cid) | RUnit
+| RNumIx (n : N) (ix : list (str * list cid)) | RIx (ix : list (str * list cid)).
 
 Fixpoint cache_set (l : list (cid * meta)) (c : cid) (m : meta) : list (cid * meta) :=
   match l with
@@ -51,19 +60,24 @@ Fixpoint cache_set (l : list (cid * meta)) (c : cid) (m : meta) : list (cid * me
 Definition do_act (w : world) (st : sstate) (a : act) : sstate * aans :=
   match a with
   | ACacheHas c => (st, RBool (match cache_get (s_cache st) c with Some _ => true | None => false end))
-  | ACacheSet c m => (mkS (cache_set (s_cache st) c m) (s_xsi st) (s_seen st), RUnit)
+  | ACacheSet c m => (mkS (cache_set (s_cache st) c m) (s_xsi st) (s_seen st) (s_unsup st), RUnit)
   | ACacheGet c => (st, RMeta (cache_get (s_cache st) c))
   | ASeenRead => (st, RNum (s_seen st))
-  | AXsiPublish ix => (mkS (s_cache st) ix (s_seen st), RUnit)
-  | ASeenWrite => (mkS (s_cache st) (s_xsi st) (w_modules w), RUnit)
+  | AXsiPublish ix => (mkS (s_cache st) ix (s_seen st) (s_unsup st), RUnit)
+  | ASeenWrite => (mkS (s_cache st) (s_xsi st) (w_modules w) (s_unsup st), RUnit)
   | AXsiHas q => (st, RBool (match index_get (s_xsi st) q with Some _ => true | None => false end))
   | AXsiRef q =>
       (* a defaultdict: a missing key is inserted with a new empty list *)
       match index_get (s_xsi st) q with
       | Some l => (st, RClss l)
-      | None => (mkS (s_cache st) (s_xsi st ++ [(q, [])]) (s_seen st), RClss [])
+      | None => (mkS (s_cache st) (s_xsi st ++ [(q, [])]) (s_seen st) (s_unsup st), RClss [])
       end
   | AStoreFail _ => (st, RUnit)
+  | ASeenReadAll => (st, RNumIx (s_seen st) (s_xsi st))
+  | ASeenWriteAll => (mkS (s_cache st) (s_xsi st) (w_modules w) (s_unsup st), RIx (s_xsi st))
+  | AUnsupHas c => (st, RBool (memN c (s_unsup st)))
+  | AUnsupAdd c => (mkS (s_cache st) (s_xsi st) (s_seen st) (if memN c (s_unsup st) then s_unsup st else s_unsup st ++ [c]), RUnit)
+  | ACacheGetDiff c => (st, RMeta (cache_get (s_cache st) c))
   end.
 
 (* label of an action: which marked source line it is (for the replay on the
@@ -72,6 +86,7 @@ Definition act_label (a : act) : nat :=
   match a with
   | ACacheHas _ => 1 | ACacheSet _ _ => 2 | ACacheGet _ => 3 | ASeenRead => 4 | AXsiPublish _ => 5
   | ASeenWrite => 7 | AXsiHas _ => 8 | AXsiRef _ => 9 | AStoreFail _ => 2
+  | ASeenReadAll => 4 | ASeenWriteAll => 7 | AUnsupHas _ => 12 | AUnsupAdd _ => 13 | ACacheGetDiff _ => 14
   end%nat.
 
 Inductive mscript :=
@@ -146,6 +161,53 @@ Definition m_fetch (w : world) (c : cid) (pns xt : ostr) (k : option meta -> msc
         end
     end).
 
+(* XmlContext.local_names_match *)
+Definition m_names_match (w : world) (names : list str) (c : cid) (k : bool -> mscript) : mscript :=
+  MAct (AUnsupHas c) (fun a =>
+    match a with
+    | RBool true => k false
+    | RBool false =>
+        m_build w c None (fun om =>
+          match om with
+          | Some m => k (subset_str names (local_names m))
+          | None => match find_class w c with
+                    | Some _ => MAct (AUnsupAdd c) (fun _ => k false)
+                    | None => k false
+                    end
+          end)
+    | _ => mbad
+    end).
+
+(* the comprehension of find_type_by_fields over the classes of the captured index:
+   local_names_match, then get_field_diff for the classes that match *)
+Fixpoint m_scan (w : world) (names : list str) (l : list cid) (acc : list (cid * (nat * str)))
+  (k : list (cid * (nat * str)) -> mscript) : mscript :=
+  match l with
+  | [] => k acc
+  | c :: r =>
+      m_names_match w names c (fun ok =>
+        if ok then
+          MAct (ACacheGetDiff c) (fun a =>
+            match a with
+            | RMeta (Some m) => m_scan w names r (acc ++ [(c, (field_diff names m, class_name w c))]) k
+            | RMeta None => MRet (RErr e_key [])
+            | _ => mbad
+            end)
+        else m_scan w names r acc k)
+  end.
+
+(* XmlContext.find_type_by_fields *)
+Definition m_find_by_fields (w : world) (names : list str) (k : option cid -> mscript) : mscript :=
+  let go := fun ix => m_scan w names (flat_map snd ix) [] (fun scored => k (min_by scored None)) in
+  MAct ASeenReadAll (fun a =>
+    match a with
+    | RNumIx n ix =>
+        if N.eqb (w_modules w) n then go ix
+        else MAct (AXsiPublish (ideal_index w)) (fun _ =>
+               MAct ASeenWriteAll (fun a' => match a' with RIx ix' => go ix' | _ => mbad end))
+    | _ => mbad
+    end).
+
 (* a call-level script as a thread program.  Calls whose concurrent behaviour is
    not cut into actions end the program with a marker (never agreement). *)
 Fixpoint expand (w : world) (s : script) : mscript :=
@@ -158,6 +220,8 @@ Fixpoint expand (w : world) (s : script) : mscript :=
       | CFindType q => m_find_type w q (fun oc => expand w (k (ACls oc)))
       | CFindTypes q => m_find_types w q (fun l => expand w (k (AClss l)))
       | CFindSubclass c q => m_find_subclass w c q (fun oc => expand w (k (ACls oc)))
+      | CFindByFields names => m_find_by_fields w names (fun oc => expand w (k (ACls oc)))
+      | CLocalNamesMatch names c => m_names_match w names c (fun b => expand w (k (ABool b)))
       | CRegister _ _ => expand w (k AUnit)          (* the parser's own recorder: write-only (C14) *)
       | _ => MRet (RErr e_conc_unsupported [])
       end
@@ -167,7 +231,8 @@ Fixpoint expand (w : world) (s : script) : mscript :=
    from a given index E *)
 Definition supported (c : call) : bool :=
   match c with
-  | CBuild _ _ | CFetch _ _ _ | CFindType _ | CFindTypes _ | CFindSubclass _ _ | CRegister _ _ => true
+  | CBuild _ _ | CFetch _ _ _ | CFindType _ | CFindTypes _ | CFindSubclass _ _ | CRegister _ _
+  | CFindByFields _ | CLocalNamesMatch _ _ => true
   | _ => false
   end.
 Definition ref_lookup (E : list (str * list cid)) (q : str) : list cid :=
@@ -187,6 +252,13 @@ Definition ref_fetch (w : world) (E : list (str * list cid)) (c : cid) (pns xt :
       | None => Some m
       end
   end.
+Definition ref_candidates (w : world) (E : list (str * list cid)) (names : list str) : list cid :=
+  filter (ideal_names_match w names) (flat_map snd E).
+Definition ref_by_fields (w : world) (E : list (str * list cid)) (names : list str) : option cid :=
+  min_by (map (fun c => (c, (match ideal_build w c None with
+                             | Some m => field_diff names m
+                             | None => O
+                             end, class_name w c))) (ref_candidates w E names)) None.
 Definition ref_call (w : world) (E : list (str * list cid)) (c : call) : ans :=
   match c with
   | CBuild c pns => ans_of_ometa (ideal_build w c pns)
@@ -194,6 +266,8 @@ Definition ref_call (w : world) (E : list (str * list cid)) (c : call) : ans :=
   | CFindType q => ACls (last (map Some (ref_lookup E q)) None)
   | CFindTypes q => AClss (ref_lookup E q)
   | CFindSubclass c q => ACls (find (subclass_candidate w c) (ref_lookup E q))
+  | CFindByFields names => ACls (ref_by_fields w E names)
+  | CLocalNamesMatch names c => ABool (ideal_names_match w names c)
   | _ => AUnit
   end.
 Fixpoint ref_run (w : world) (E : list (str * list cid)) (s : script) : res :=
@@ -267,7 +341,7 @@ Definition eff_index (w : world) (st : sstate) : list (str * list cid) :=
 
 (* a state in which build_xsi_cache has run for the current world *)
 Definition warm_state (w : world) (cache : list (cid * meta)) : sstate :=
-  mkS cache (ideal_index w) (w_modules w).
+  mkS cache (ideal_index w) (w_modules w) [].
 Definition index_eqb (a b : list (str * list cid)) : bool :=
   list_eqb (fun x y : str * list cid => str_eqb (fst x) (fst y) && lcid_eqb (snd x) (snd y)) a b.
 Definition warm_b (w : world) (st : sstate) : bool :=
@@ -289,6 +363,8 @@ Definition call_reqs (w : world) (E : list (str * list cid)) (c : call) : list (
                end
       | _, _ => []
       end
+  | CFindByFields _ => flat_map (fun c => one c None) (flat_map snd E)
+  | CLocalNamesMatch _ c => one c None
   | _ => []
   end.
 Fixpoint ref_reqs (w : world) (E : list (str * list cid)) (s : script) : list (cid * meta) :=
@@ -302,6 +378,8 @@ Fixpoint ref_reqs (w : world) (E : list (str * list cid)) (s : script) : list (c
    classes exist and can be built *)
 Definition cache_known (w : world) (cache : list (cid * meta)) : bool :=
   forallb (fun e => match find_class w (fst e) with Some cd => c_ok cd | None => false end) cache.
+Definition unsup_ok (w : world) (st : sstate) : bool :=
+  forallb (fun c => match ideal_build w c None with Some _ => false | None => true end) (s_unsup st).
 Definition conc_guard (w : world) (st : sstate) (progs : list script) : bool :=
-  world_ok w && cache_known w (s_cache st)
+  world_ok w && cache_known w (s_cache st) && unsup_ok w st
   && consistent (s_cache st ++ flat_map (ref_reqs w (eff_index w st)) progs).
